@@ -136,6 +136,7 @@ func init() {
 			{Name: "sketches", QShards: 2, TShards: 8, Run: c17Sketches},
 			{Name: "distance", TShards: 4, Run: c17Distance},
 			{Name: "long", QShards: 4, TShards: 12, Run: c17Long},
+			{Name: "parallel", Race: true, Run: mashParallel},
 			{Name: "fromjaccard", Run: c17FromJaccard},
 		},
 	})
